@@ -27,7 +27,7 @@ def extra_judge(case, mvals, r):
                      "rockit": hv, "model": [T, t0, t0 + T], "point": p}]
     for nm in ("T", "t0"):
         if "free" in case.get(nm, {}):
-            guess = float(Fr(case[nm]["free"]))
+            guess = float(Fr((case.get("horizon_guess") or {}).get(nm, case[nm]["free"])))
             if nm in ex["init"] and not engine.close(ex["init"][nm], guess):
                 return [{"what": "starting value of the free %s is not the FreeTime guess" % nm,
                          "rockit": ex["init"][nm], "guess": guess}]
@@ -40,6 +40,22 @@ def fix_case(case, pt):
         if "free" in c.get(nm, {}):
             c[nm] = {"fixed": pt[nm]}
     c["id"] = case.get("id", "") + "-fixed"
+    return c
+
+
+def build(rng, opts):
+    from .nlpprop import default_build
+    from ..common import jq, dyadic
+    from fractions import Fraction
+    c = default_build(rng, opts)
+    # an explicit guess given with set_initial replaces the FreeTime guess (and changes nothing else)
+    hg = {}
+    if "free" in c.get("T", {}) and rng.random() < 0.35:
+        hg["T"] = jq(rng.choice([Fraction(1, 2), 1, Fraction(5, 4), 3]))
+    if "free" in c.get("t0", {}) and rng.random() < 0.5:
+        hg["t0"] = jq(dyadic(rng, -1, 1, 2))
+    if hg:
+        c["horizon_guess"] = hg
     return c
 
 
@@ -80,11 +96,11 @@ class C11Prop(NlpProp):
         return res
 
 
-P = C11Prop("C11", OPTS, OPTS_T, judge_kinds=None, judge_obj=True, nontrivial=nontrivial,
+P = C11Prop("C11", OPTS, OPTS_T, build=build, judge_kinds=None, judge_obj=True, nontrivial=nontrivial,
             extra=(engine.extras_horizon, engine.extra_horizon), extra_judge=extra_judge,
             rule="random OCPs with T and/or t0 declared FreeTime(guess), T/t0/t/DT symbols in constraints and "
                  "objective, x {MS,SS,DC} x N,M x grids {Uniform, Geometric, Function, Free, localized}: (1) all rows and "
-                 "the objective against the model at several horizon values; ocp.value(T|t0|tf); starting value = guess; "
+                 "the objective against the model at several horizon values; ocp.value(T|t0|tf); starting value = guess (FreeTime guess, or an explicit set_initial(ocp.T|t0, v) which must change nothing else); "
                  "(2) metamorphic on rockit: the free problem at T=c, t0=c0 against the same OCP declared with those "
                  "numbers (fixed rows must all occur, leftovers must be T>=0 and constant grid rows, same objective).  "
                  "non-trivial = has a free horizon; distinct by hash of the case")
